@@ -118,7 +118,8 @@ def run(prop, R, seed):
             if os.path.exists(mp) and os.path.exists(pp):
                 try:
                     import json
-                    if json.load(open(mp)).get("property") == prop:
+                    mj = json.load(open(mp))
+                    if mj.get("property") == prop and not mj.get("obsolete"):
                         patches.append(pp)
                 except Exception:
                     pass
